@@ -233,8 +233,8 @@ def inrun(mon, rng, real=False):
     variant = str(rng.choice(["VOGP", "PaVeBaGP-IH", "PaVeBaGP-DE", "PartialGP-rect", "EpsilonPAL", "PaVeBa", "Auer-emp"]))
     case, order = runs.make_case(rng, variant, K=int(rng.integers(1, 8)), allow_Kgtm=False, contraction=float(rng.choice([8, 32])))
     if real and runs.VARIANTS[variant]["algo"] in ("VOGP", "EpsilonPAL", "PaVeBaGP", "PaVeBaPartialGP"):
-        case["model"] = "real"
-        case["noise_var"] = 1e-4 * case["scale"] ** 2
+        case, order = runs.make_case(rng, variant, K=int(rng.integers(8, 13)), allow_Kgtm=False, contraction=16.0, scale=1.0,
+                                     ds_family="random", noise_var=0.01, eps=0.3, model="real")
     case["max_rounds"] = 25
     tr = runs.run_case(case, order, mon, max_extra_steps=0, watch_updates=True)
     mon.count("inrun_runs")
